@@ -160,8 +160,24 @@ def run(repo: Repo) -> Result:
         if other is None:
             res.add("C25-ARITH", f.qual, f"{name}:signature", f"`{name}` must take (num, other)", f.file, f.line)
             continue
-        if not second_operand_converted(f, other):
+        # the second operand is whatever name holds num_arg(<argument>, default=0) — the parameter
+        # itself (rebound) or a fresh local (when the conversion is written inside a helper call)
+        conv = [
+            st.targets[0].id
+            for st in walk_no_nested(f.node)
+            if isinstance(st, ast.Assign)
+            and len(st.targets) == 1
+            and isinstance(st.targets[0], ast.Name)
+            and isinstance(st.value, ast.Call)
+            and callee_name(st.value) == "num_arg"
+            and st.value.args
+            and is_name(st.value.args[0], other)
+            and any(k.arg == "default" and isinstance(k.value, ast.Constant) and k.value.value == 0 and not isinstance(k.value.value, bool) for k in st.value.keywords)
+        ]
+        if len(conv) != 1:
             res.add("C25-ARITH", f.qual, f"{name}:operand-conversion", f"`{name}` must convert its argument with `{other} = num_arg({other}, default=0)`", f.file, f.line)
+        else:
+            other = conv[0]
         if name in EXTREMA:
             fn_name = EXTREMA[name]
             ok = len(rets) == 1 and isinstance(rets[0].value, ast.Call) and is_name(rets[0].value.func, fn_name) and len(rets[0].value.args) == 2 and {text(a) for a in rets[0].value.args} == {num, other} and not rets[0].value.keywords
